@@ -298,6 +298,7 @@ pub fn execute_guarded(scn: &dyn Scenario, spec: &Spec, st: &mut Stats) -> RunEn
             None => body(st),
         }
     };
+    crate::seams::clock::release_run_registries();
     if flying {
         wallclock::set_step_ns(0);
     }
